@@ -1147,7 +1147,7 @@ Proof.
         (destruct (InK_elim _ _ Hq) as (x & Hx & Ek);
          destruct (i_live _ Iv x (or_introl Hx)) as [Hw Hf];
          split; [eapply InK_key_eq; [exact Ek|exact Hw]|];
-         unfold skey in Ek; inversion Ek as [[E1 E2]]; rewrite <- E1; exact Hf).
+         assert (E1 : fst x = fst e) by (unfold skey in Ek; congruence); lia).
   - eapply Forall_impl; [|exact Hpcs]. intros p ->. exact I.
   - eapply Forall_impl; [|exact Hpcs]. intros p ->. exact I.
   - split; [|split; exact I]. clear - Hidle. induction Hidle as [|w r Hw _ IH]; simpl; constructor; auto. rewrite Hw. exact I.
@@ -1168,4 +1168,442 @@ Proof.
   - unfold dw_finish in H. rewrite w_acked_snoc in H. simpl in H. rewrite app_nil_r in H.
     destruct w; exact H.
   - destruct w; exact H.
+Qed.
+
+(* ------------------------------------------------------------------ *)
+(* start of ensure_wal on a fresh process                               *)
+(* ------------------------------------------------------------------ *)
+Lemma pcs_idle_ws ws tm rec : Forall (fun p => p = QIdle) (map dw_pc ws ++ [tm; rec]) ->
+  Forall (fun w => dw_pc w = QIdle) ws /\ tm = QIdle /\ rec = QIdle.
+Proof.
+  intros H. apply Forall_app in H. destruct H as [H1 H2]. split.
+  - induction ws as [|w r IH]; simpl in *; constructor; inversion H1; subst; auto.
+  - inversion H2 as [|? ? E1 H3]; subst. inversion H3 as [|? ? E2 _]; subst. auto.
+Qed.
+
+Lemma max_seq_bound d : wal_sorted d -> forall x, In x (wal_entries d) -> we_seq x <= max_seq_of d.
+Proof.
+  unfold wal_sorted, max_seq_of. intros Hs x Hx.
+  destruct (last_seq (wal_entries d)) as [m|] eqn:E.
+  - eapply last_seq_max; eauto.
+  - apply last_seq_none in E. rewrite E in Hx. destruct Hx.
+Qed.
+
+Lemma replay_in d x : In x (replay_sbs d) <-> In x (wal_sbs d) /\ d_flushed d < fst x.
+Proof. unfold replay_sbs. rewrite filter_In, N.ltb_lt. tauto. Qed.
+
+Lemma rec_start s fl :
+  inv s -> ds_mode s = MDown ->
+  inv (mkDs (ds_d s) (v_fresh (ds_d s)) MRec (ds_ws s) QIdle
+            (QScan (replay_sbs (ds_d s)) (d_flushed (ds_d s)) (d_flushed (ds_d s))) false fl).
+Proof.
+  intros Iv Hm. pose proof (i_mode _ Iv) as Him. rewrite Hm in Him. destruct Him as [Hv Hp].
+  destruct (pcs_idle_ws _ _ _ Hp) as (Hws & Htm & Hrec).
+  set (d := ds_d s) in *.
+  assert (Hidle : Forall (fun p => p = QIdle) (map dw_pc (ds_ws s))).
+  { clear - Hws. induction Hws; simpl; constructor; auto. }
+  assert (HL : forall x, In x (Lset (mkDs d (v_fresh d) MRec (ds_ws s) QIdle (QScan (replay_sbs d) (d_flushed d) (d_flushed d)) false fl))
+               <-> In x (replay_sbs d)).
+  { intros x. unfold Lset, vL, pcs. simpl. rewrite flat_map_app. rewrite (idle_flat pc_L _ eq_refl Hidle). simpl.
+    rewrite app_nil_r. tauto. }
+  assert (HP : Pset (mkDs d (v_fresh d) MRec (ds_ws s) QIdle (QScan (replay_sbs d) (d_flushed d) (d_flushed d)) false fl) = []).
+  { unfold Pset, pcs. simpl. rewrite flat_map_app. rewrite (idle_flat pc_P _ eq_refl Hidle). reflexivity. }
+  constructor; simpl.
+  - apply (i_sorted _ Iv).
+  - intros _. unfold v_fresh; simpl.
+    pose proof (N.le_max_l (max_seq_of d) (d_flushed d)) as M1.
+    pose proof (N.le_max_r (max_seq_of d) (d_flushed d)) as M2.
+    split; [|split]; try lia.
+    intros x Hx. pose proof (max_seq_bound d (i_sorted _ Iv) x Hx). lia.
+  - intros x Hx. rewrite HL, HP in Hx. destruct Hx as [Hx|[]]. apply replay_in in Hx. destruct Hx as [H1 H2].
+    split; [apply InK_intro; exact H1|exact H2].
+  - intros e He Hr. simpl in He. pose proof (i_acked _ Iv e He Hr) as Hq. rewrite Hm in Hq.
+    destruct Hq as [Hq|[Hq1 Hq2]]; [left; exact Hq|right].
+    destruct (InK_elim _ _ Hq1) as (x & Hx & Ek).
+    eapply InK_key_eq; [exact Ek|]. apply InK_intro. apply HL. apply replay_in. split; [exact Hx|].
+    assert (E1 : fst x = fst e) by (unfold skey in Ek; congruence). rewrite E1. exact Hq2.
+  - apply Forall_app. split.
+    + eapply Forall_impl; [|exact Hidle]. intros p ->. exact I.
+    + repeat constructor.
+  - apply Forall_app. split.
+    + eapply Forall_impl; [|exact Hidle]. intros p ->. exact I.
+    + repeat constructor.
+  - split; [|split; exact I]. eapply Forall_impl; [|exact Hidle]. intros p ->. exact I.
+  - unfold v_fresh; simpl. pose proof (N.le_max_r (max_seq_of d) (d_flushed d)) as M2. lia.
+  - split; [exact Hws|reflexivity].
+Qed.
+
+(* ------------------------------------------------------------------ *)
+(* every step preserves the invariant while the classifier is silent    *)
+(* ------------------------------------------------------------------ *)
+Lemma inv_ext s s' :
+  ds_d s' = ds_d s -> ds_v s' = ds_v s -> ds_mode s' = ds_mode s -> ds_ws s' = ds_ws s ->
+  ds_tm s' = ds_tm s -> ds_rec s' = ds_rec s -> inv s -> inv s'.
+Proof.
+  destruct s, s'; simpl. intros -> -> -> -> -> -> Iv.
+  destruct Iv as [A B C D E F G H J]. constructor; simpl in *; try assumption.
+Qed.
+
+Lemma acked_is_flat s : acked_sbs s = flat_map w_acked (ds_ws s).
+Proof. reflexivity. Qed.
+
+Lemma in_w_acked_ws ws i w e : nth_error ws i = Some w -> In e (w_acked w) -> In e (flat_map w_acked ws).
+Proof. intros Hn He. apply in_flat_map. exists w. split; [eapply nth_error_In; eauto|exact He]. Qed.
+
+Lemma flush_err_frame hw f d v p d' v' k :
+  dflush_step hw f d v p = Some (d', v', GErr k) ->
+  wal_entries d' = wal_entries d /\ d_flushed d' = d_flushed d /\ (forall x, In x (cat_sbs d) -> In x (cat_sbs d')).
+Proof.
+  destruct p; simpl; intros H; try discriminate.
+  - destruct f; inversion H; subst; repeat split; auto.
+  - destruct f; inversion H; subst; repeat split; auto. rewrite cat_sbs_add. intros x Hx. apply in_or_app; left; exact Hx.
+  - destruct (0 <? s); discriminate.
+Qed.
+
+Lemma dr_after_fail r : dr_after r = RFail -> exists k, r = GErr k.
+Proof. destruct r as [q|k|k]; simpl; try discriminate; [destruct k; discriminate|]. intros _. eauto. Qed.
+
+Lemma drstep_fail f d v p d' v' :
+  drstep f d v p = (d', v', RFail) ->
+  wal_entries d' = wal_entries d /\ d_flushed d' = d_flushed d /\ (forall x, In x (cat_sbs d) -> In x (cat_sbs d')).
+Proof.
+  unfold drstep. intros H.
+  assert (Hflush : forall d1 v1 r, dflush_step false f d v p = Some (d1, v1, r) ->
+                   (d1, v1, dr_after r) = (d', v', RFail) ->
+                   wal_entries d' = wal_entries d /\ d_flushed d' = d_flushed d /\ (forall x, In x (cat_sbs d) -> In x (cat_sbs d'))).
+  { intros d1 v1 r Ef E. inversion E; subst. destruct (dr_after_fail _ H3) as [k ->]. eapply flush_err_frame; eauto. }
+  destruct p; try (simpl in H; discriminate);
+    try (match type of H with match dflush_step ?a ?b ?c ?e ?g with _ => _ end = _ =>
+           destruct (dflush_step a b c e g) as [[[d1 v1] r]|] eqn:Ef end; [eapply Hflush; eauto|discriminate]).
+  - destruct rest as [|e r0]; [discriminate|]. destruct (db_compatible (v_buf v) e); [discriminate|].
+    destruct (db_items (v_buf v)); simpl in H; discriminate.
+Qed.
+
+Lemma inv_step c l s : inv s -> ds_flag (dstep c l s) = 0 -> inv (dstep c l s).
+Proof.
+  intros Iv Hf. destruct l as [i f|f| | |f|]; simpl in *.
+  - (* DW *)
+    destruct (ds_mode s) eqn:Em; try exact Iv.
+    destruct (nth_error (ds_ws s) i) as [w|] eqn:En; try exact Iv.
+    destruct (dwstep c f (ds_d s) (ds_v s) w) as [[d' v'] w'] eqn:Es. simpl in Hf.
+    destruct (set_flag_zero _ _ Hf) as [Hf0 Hcls].
+    destruct (i_kinds _ Iv) as (Hkw & Hkt & Hkr).
+    assert (Hk : wkind (dw_pc w)).
+    { rewrite Forall_forall in Hkw. apply Hkw. apply in_map. eapply nth_error_In; eauto. }
+    destruct (dwstep_spec _ _ _ _ _ _ _ _ Es Hk) as (LS & Hk' & Hres).
+    set (s' := mkDs d' v' MUp (upd i w' (ds_ws s)) (ds_tm s) (ds_rec s) (ds_shut s) (set_flag s (dw_pc w))).
+    assert (Hrecidle : ds_rec s = QIdle) by (pose proof (i_mode _ Iv) as Hm; rewrite Em in Hm; exact Hm).
+    destruct (thread_step_core s s' i (dw_pc w) (dw_pc w')) as (S1 & S2 & S3 & S4 & S5 & S6).
+    + exact Iv.
+    + rewrite Em; discriminate.
+    + apply pcs_w; exact En.
+    + unfold pcs, s'; simpl. eapply pcs_upd_w; eauto.
+    + exact LS.
+    + exact Hcls.
+    + intros rest maxs fl0 [E|E]; rewrite E in Hk; simpl in Hk; contradiction.
+    + intros e He. rewrite acked_is_flat in He. unfold s' in He; simpl in He.
+      destruct (upd_In_flat w_acked _ _ _ _ _ En He) as [Hw|Ho]; [|left; exact Ho].
+      destruct Hres as [Er|(e0 & r & Er & Hr)].
+      * left. eapply in_w_acked_ws; [exact En|]. unfold w_acked in *. rewrite Er in Hw. exact Hw.
+      * unfold w_acked in Hw. rewrite Er, flat_map_app in Hw. apply in_app_or in Hw. destruct Hw as [Hw|Hw].
+        -- left. eapply in_w_acked_ws; [exact En|exact Hw].
+        -- simpl in Hw. destruct r; simpl in Hw; try (destruct Hw as [|[]]); try contradiction.
+           subst e0. right. apply Hr. reflexivity.
+    + simpl; discriminate.
+    + constructor; simpl; auto; try (intros e He Hr; apply S4; assumption); try (rewrite Hrecidle; exact I).
+      split; [rewrite map_upd; apply Forall_upd_nth; assumption|split; assumption].
+  - (* DT *)
+    destruct (ds_mode s) eqn:Em; try exact Iv.
+    destruct (dtstep (ds_shut s) f (ds_d s) (ds_v s) (ds_tm s)) as [[d' v'] p'] eqn:Es. simpl in Hf.
+    destruct (set_flag_zero _ _ Hf) as [Hf0 Hcls].
+    destruct (i_kinds _ Iv) as (Hkw & Hkt & Hkr).
+    destruct (dtstep_spec _ _ _ _ _ _ _ _ Es Hkt) as (LS & Hk').
+    set (s' := mkDs d' v' MUp (ds_ws s) p' (ds_rec s) (ds_shut s) (set_flag s (ds_tm s))).
+    assert (Hrecidle : ds_rec s = QIdle) by (pose proof (i_mode _ Iv) as Hm; rewrite Em in Hm; exact Hm).
+    destruct (thread_step_core s s' (length (ds_ws s)) (ds_tm s) p') as (S1 & S2 & S3 & S4 & S5 & S6).
+    + exact Iv.
+    + rewrite Em; discriminate.
+    + apply pcs_tm.
+    + unfold pcs, s'; simpl. apply pcs_upd_tm.
+    + exact LS.
+    + exact Hcls.
+    + intros rest maxs fl0 [E|E]; rewrite E in Hkt; simpl in Hkt; contradiction.
+    + intros e He. left. exact He.
+    + simpl; discriminate.
+    + constructor; simpl; auto; try (intros e He Hr; apply S4; assumption); try (rewrite Hrecidle; exact I).
+  - (* DTick *)
+    destruct (ds_mode s) eqn:Em; try exact Iv.
+    destruct (ds_tm s) eqn:Et; try exact Iv.
+    destruct (ds_shut s) eqn:Esh; try exact Iv. simpl in Hf.
+    destruct (i_kinds _ Iv) as (Hkw & Hkt & Hkr).
+    set (s' := mkDs (ds_d s) (ds_v s) MUp (ds_ws s) QCheck (ds_rec s) false (ds_flag s)).
+    assert (Hrecidle : ds_rec s = QIdle) by (pose proof (i_mode _ Iv) as Hm; rewrite Em in Hm; exact Hm).
+    destruct (thread_step_core s s' (length (ds_ws s)) QIdle QCheck) as (S1 & S2 & S3 & S4 & S5 & S6).
+    + exact Iv.
+    + rewrite Em; discriminate.
+    + rewrite <- Et. apply pcs_tm.
+    + unfold pcs, s'; simpl. rewrite Et. apply pcs_upd_tm.
+    + apply lspec_idle; intros; auto; try discriminate; exact I.
+    + intros k E; discriminate.
+    + intros rest maxs fl0 [E|E]; discriminate.
+    + intros e He. left. exact He.
+    + simpl; discriminate.
+    + constructor; simpl; auto; try (intros e He Hr; apply S4; assumption); try (rewrite Hrecidle; exact I);
+        try (split; [assumption|split; [exact I|assumption]]).
+  - (* DShut *)
+    destruct (ds_mode s) eqn:Em; try exact Iv.
+    eapply inv_ext; [..|exact Iv]; simpl; auto.
+  - (* DRec *)
+    destruct (ds_mode s) eqn:Em.
+    + (* down: start *) apply rec_start; assumption.
+    + (* recovering *)
+      destruct (drstep f (ds_d s) (ds_v s) (ds_rec s)) as [[d' v'] rr] eqn:Es.
+      destruct (i_kinds _ Iv) as (Hkw & Hkt & Hkr).
+      pose proof (drstep_spec _ _ _ _ _ _ _ Es Hkr) as Hspec.
+      pose proof (i_mode _ Iv) as Him. rewrite Em in Him. destruct Him as [Hwsidle Htmidle].
+      assert (Hrb : forall rest maxs fl0, ds_rec s = QScan rest maxs fl0 \/ ds_rec s = QRFinish maxs fl0 ->
+                    maxs < v_next (ds_v s) /\ fl0 <= d_flushed (ds_d s)).
+      { intros rest maxs fl0 HE. pose proof (i_rec _ Iv) as Hr. destruct HE as [E|E]; rewrite E in Hr; simpl in Hr; tauto. }
+      destruct rr as [p'| |].
+      * (* still recovering *)
+        simpl in Hf. destruct (set_flag_zero _ _ Hf) as [Hf0 Hcls]. destruct Hspec as [LS Hk'].
+        set (s' := mkDs d' v' MRec (ds_ws s) QIdle p' false (set_flag s (ds_rec s))).
+        destruct (thread_step_core s s' (S (length (ds_ws s))) (ds_rec s) p') as (S1 & S2 & S3 & S4 & S5 & S6).
+        -- exact Iv.
+        -- rewrite Em; discriminate.
+        -- apply pcs_rec.
+        -- unfold pcs, s'; simpl. rewrite Htmidle. apply pcs_upd_rec.
+        -- exact LS.
+        -- exact Hcls.
+        -- exact Hrb.
+        -- intros e He. left. exact He.
+        -- simpl; discriminate.
+        -- constructor; simpl; auto; try (intros e He Hr; apply S4; assumption);
+             try (split; [assumption|split; [exact I|assumption]]).
+           ++ eapply drstep_rec_ok; [exact Es|exact Hkr|apply (i_rec _ Iv)|].
+              intros x Hx.
+              assert (Hin : In x (Lset s)).
+              { apply (Lset_split s _ _ x (pcs_rec s)). right. left. exact Hx. }
+              destruct (i_live _ Iv x (or_introl Hin)) as [Hw _]. destruct (wal_key_entry _ _ Hw) as (y & Hy & Ey & _).
+              assert (Hup : ds_mode s <> MDown) by (rewrite Em; discriminate).
+              destruct (i_next _ Iv Hup) as (Hnext & _). specialize (Hnext y Hy). lia.
+      * (* up *)
+        simpl in Hf. destruct (set_flag_zero _ _ Hf) as [Hf0 Hcls].
+        set (s' := mkDs d' v' MUp (ds_ws s) QIdle QIdle false (set_flag s (ds_rec s))).
+        destruct (thread_step_core s s' (S (length (ds_ws s))) (ds_rec s) QIdle) as (S1 & S2 & S3 & S4 & S5 & S6).
+        -- exact Iv.
+        -- rewrite Em; discriminate.
+        -- apply pcs_rec.
+        -- unfold pcs, s'; simpl. rewrite Htmidle. apply pcs_upd_rec.
+        -- exact Hspec.
+        -- exact Hcls.
+        -- exact Hrb.
+        -- intros e He. left. exact He.
+        -- simpl; discriminate.
+        -- constructor; simpl; auto; try (intros e He Hr; apply S4; assumption);
+             try (split; [assumption|split; exact I]).
+      * (* ensure_wal failed: the process is given up *)
+        pose proof (drstep_fail _ _ _ _ _ _ Es) as Hd.
+        destruct Hd as (Hd1 & Hd2 & Hd3).
+        apply (go_down s); auto. rewrite Em; discriminate.
+    + exact Iv.
+  - (* DCrash *)
+    destruct (ds_mode s) eqn:Em; try exact Iv.
+    + apply (go_down s); auto; [rewrite Em; discriminate|apply crash_w_idle|].
+      intros e He. rewrite acked_is_flat. apply crash_w_acked. exact He.
+    + apply (go_down s); auto; [rewrite Em; discriminate|apply crash_w_idle|].
+      intros e He. rewrite acked_is_flat. apply crash_w_acked. exact He.
+Qed.
+
+(* ------------------------------------------------------------------ *)
+(* main theorems                                                        *)
+(* ------------------------------------------------------------------ *)
+Lemma inv_init todos : inv (dinit todos).
+Proof.
+  assert (Hidle : Forall (fun w => dw_pc w = QIdle) (map (fun t => mkDw QIdle t []) todos)).
+  { induction todos; simpl; constructor; auto. }
+  pose proof (pcs_all_idle _ Hidle) as Hpcs.
+  assert (HL : Lset (dinit todos) = []).
+  { unfold Lset, vL, pcs, dinit. simpl. apply idle_flat; [reflexivity|exact Hpcs]. }
+  assert (HP : Pset (dinit todos) = []).
+  { unfold Pset, pcs, dinit. simpl. apply idle_flat; [reflexivity|exact Hpcs]. }
+  constructor; simpl.
+  - exact I.
+  - intros H; contradiction.
+  - intros x Hx. rewrite HL, HP in Hx. destruct Hx as [[]|[]].
+  - intros e He. exfalso. unfold acked_sbs, dinit in He. simpl in He.
+    clear - He. induction todos as [|t r IH]; simpl in He; [exact He|apply IH; exact He].
+  - eapply Forall_impl; [|exact Hpcs]. intros p ->. exact I.
+  - eapply Forall_impl; [|exact Hpcs]. intros p ->. exact I.
+  - split; [|split; exact I]. clear. induction todos; simpl; constructor; auto. exact I.
+  - exact I.
+  - split; [reflexivity|exact Hpcs].
+Qed.
+
+Lemma inv_run c ls : forall s, inv s -> ds_flag (drun c ls s) = 0 -> inv (drun c ls s).
+Proof.
+  induction ls as [|l t IH]; intros s Iv Hf; simpl in *; [exact Iv|].
+  apply IH; [|exact Hf]. apply inv_step; [exact Iv|].
+  destruct (N.eq_dec (ds_flag (dstep c l s)) 0) as [E|E]; [exact E|].
+  exfalso. rewrite (flag_sticky_run c t _ E) in Hf. contradiction.
+Qed.
+
+Lemma inv_durable s : inv s -> Durable s.
+Proof.
+  intros Iv e r He Hr.
+  assert (Hne : b_rows (snd e) <> []) by (intros E; rewrite E in Hr; destruct Hr).
+  destruct (i_acked _ Iv e He Hne) as [Hc|Hq].
+  - left. unfold dcat_rows. eapply InK_rows; eauto.
+  - right. unfold replay_rows.
+    assert (Hw : InK e (wal_sbs (ds_d s)) /\ d_flushed (ds_d s) < fst e).
+    { destruct (ds_mode s); [exact Hq| |];
+        (destruct (InK_elim _ _ Hq) as (x & Hx & Ek);
+         destruct (i_live _ Iv x (or_introl Hx)) as [Hw Hf];
+         assert (E1 : fst x = fst e) by (unfold skey in Ek; congruence);
+         split; [eapply InK_key_eq; [exact Ek|exact Hw]|lia]). }
+    destruct Hw as [Hw Hf]. destruct (InK_elim _ _ Hw) as (y & Hy & Ek).
+    assert (E1 : fst y = fst e) by (unfold skey in Ek; congruence).
+    apply (InK_rows e (replay_sbs (ds_d s)) r); [|exact Hr].
+    eapply InK_key_eq; [exact Ek|]. apply InK_intro. apply replay_in. split; [exact Hy|lia].
+Qed.
+
+(* C01 modulo the two known classes: on every schedule on which the classifier
+   stays silent, every row of every acknowledged write is in a registered
+   chunk or is replayed by the next ensure_wal — in every reachable state,
+   hence after any crash, restart, failed or retried flush. *)
+Theorem durable_modulo_known : forall c todos ls,
+  known_class c todos ls = 0 -> Durable (drun c ls (dinit todos)).
+Proof.
+  intros c todos ls H. apply inv_durable. apply inv_run; [apply inv_init|exact H].
+Qed.
+
+(* the same for every prefix: Durable holds all along the run *)
+Theorem durable_modulo_known_prefix : forall c todos l1 l2,
+  known_class c todos (l1 ++ l2) = 0 -> Durable (drun c l1 (dinit todos)).
+Proof.
+  intros c todos l1 l2 H. apply durable_modulo_known.
+  unfold known_class, drun in *. rewrite fold_left_app in H.
+  destruct (N.eq_dec (ds_flag (fold_left (fun s l => dstep c l s) l1 (dinit todos))) 0) as [E|E]; [exact E|].
+  exfalso. pose proof (flag_sticky_run c l2 _ E) as Hs. unfold drun in Hs. rewrite Hs in H. contradiction.
+Qed.
+
+(* a complete fault-free ensure_wal from a crashed state brings back every
+   replayable row: stated through the invariant as Durable of the state after
+   recovery (rows are then in the catalog or again on disk above the mark and
+   in the recovered buffer) — see inv_step for DRec. *)
+
+(* ---------------- decidable form, for the witnesses ---------------- *)
+Lemma row_eqb_refl r : row_eqb r r = true.
+Proof. unfold row_eqb. rewrite N.eqb_refl, Z.eqb_refl. reflexivity. Qed.
+
+Lemma mem_row_In r l : In r l -> mem_row r l = true.
+Proof. intros H. unfold mem_row. apply existsb_exists. exists r. split; [exact H|apply row_eqb_refl]. Qed.
+
+Lemma durable_b_complete s : Durable s -> durable_b s = true.
+Proof.
+  intros H. unfold durable_b. apply forallb_forall. intros e He. apply forallb_forall. intros r Hr.
+  destruct (H e r He Hr) as [H1|H1]; rewrite (mem_row_In _ _ H1); [reflexivity|apply orb_true_r].
+Qed.
+
+(* ---------------- witnesses of the full statement's failure ---------------- *)
+Definition wb (sch : N) (ids : list N) : wreq :=
+  mkReq (mkBatch sch (map (fun i => mkRow i (Z.of_N i)) ids) 100) 1000 200.
+Definition wcfg (rows : N) : dcfg := mkDcfg (mkCfg rows 1000000 1000000 0%Z) 1.
+Definition up3 : list dlabel := [DRec FNone; DRec FNone; DRec FNone].
+Definition wn (i : nat) (n : nat) : list dlabel := repeat (DW i FNone) n.
+
+(* K1: writer 0's threshold flush has taken the buffer and is at its PUT;
+   writer 1's write is logged (seq 2), buffered and acknowledged; the flush then
+   reads last_wal_seq = 2, truncates and persists it. *)
+Definition k1_todos : list (list wreq) := [[wb 1 [1; 2]]; [wb 1 [3]]].
+Definition k1_sched : list dlabel := up3 ++ wn 0 4 ++ wn 1 4 ++ wn 0 5.
+
+Lemma refuted_inflight_ack :
+  durable_b (drun (wcfg 2) k1_sched (dinit k1_todos)) = false /\ known_class (wcfg 2) k1_todos k1_sched = 1.
+Proof. vm_compute. split; reflexivity. Qed.
+
+(* K1 with a single writer: the second write has another schema; its WAL
+   sequence number is stored before the schema-change flush of the first batch
+   runs, so that flush marks the second batch as flushed although it is only
+   buffered (and acknowledged) afterwards. *)
+Definition k1s_todos : list (list wreq) := [[wb 1 [1]; wb 2 [2]]].
+Definition k1s_sched : list dlabel := up3 ++ wn 0 4 ++ wn 0 11.
+
+Lemma refuted_schema_change_ack :
+  durable_b (drun (wcfg 100) k1s_sched (dinit k1s_todos)) = false /\ known_class (wcfg 100) k1s_todos k1s_sched = 1.
+Proof. vm_compute. split; reflexivity. Qed.
+
+(* K2: the flush of [w1, w2] fails at its PUT (w1 was acknowledged, both are
+   dropped); the later flush of [w3, w4] reads last_wal_seq = 4 and persists it. *)
+Definition k2_todos : list (list wreq) := [[wb 1 [1]; wb 1 [2]; wb 1 [3]; wb 1 [4]]].
+Definition k2_sched : list dlabel :=
+  up3 ++ wn 0 4 ++ wn 0 4 ++ [DW 0 FBefore] ++ wn 0 4 ++ wn 0 4 ++ wn 0 5.
+
+Lemma refuted_failed_flush :
+  durable_b (drun (wcfg 2) k2_sched (dinit k2_todos)) = false /\ known_class (wcfg 2) k2_todos k2_sched = 2.
+Proof. vm_compute. split; reflexivity. Qed.
+
+Lemma not_durable_of_b s : durable_b s = false -> ~ Durable s.
+Proof. intros H D. rewrite (durable_b_complete s D) in H. discriminate. Qed.
+
+(* non-vacuity of durable_modulo_known: three writers (one idle), a failed
+   flush, two crashes with restarts, and the classifier silent *)
+Definition nv_todos : list (list wreq) := [[wb 1 [1]; wb 1 [2]]; [wb 1 [3]]; []].
+Definition nv_sched : list dlabel :=
+  up3 ++ wn 0 4 ++ [DCrash] ++ repeat (DRec FNone) 4 ++ wn 0 4 ++ [DW 0 FBefore; DCrash]
+  ++ repeat (DRec FNone) 5 ++ wn 1 10 ++ [DShut; DT FNone; DT FNone].
+
+Example modulo_known_nonvacuous :
+  known_class (wcfg 2) nv_todos nv_sched = 0
+  /\ length (acked_sbs (drun (wcfg 2) nv_sched (dinit nv_todos))) = 2%nat
+  /\ durable_b (drun (wcfg 2) nv_sched (dinit nv_todos)) = true.
+Proof. vm_compute. repeat split. Qed.
+
+(* ------------------------------------------------------------------ *)
+(* runs at the granularity of the harness are step-level runs           *)
+(* ------------------------------------------------------------------ *)
+Lemma drun_app c l1 l2 s : drun c (l1 ++ l2) s = drun c l2 (drun c l1 s).
+Proof. unfold drun. apply fold_left_app. Qed.
+
+Lemma dsettle_w_is_run c fuel : forall i s, exists ls, dsettle_w c fuel i s = drun c ls s.
+Proof.
+  induction fuel as [|f IH]; intros i s; cbn [dsettle_w]; [exists []; reflexivity|].
+  destruct (ds_mode s); try (exists []; reflexivity).
+  destruct (nth_error (ds_ws s) i) as [w|]; [|exists []; reflexivity].
+  destruct (dw_parked w); [exists []; reflexivity|].
+  destruct (IH i (dstep c (DW i FNone) s)) as [ls Hls]. exists (DW i FNone :: ls). exact Hls.
+Qed.
+
+Lemma dsettle_t_is_run c fuel : forall s, exists ls, dsettle_t c fuel s = drun c ls s.
+Proof.
+  induction fuel as [|f IH]; intros s; cbn [dsettle_t]; [exists []; reflexivity|].
+  destruct (ds_mode s); try (exists []; reflexivity).
+  destruct (dt_parked s); [exists []; reflexivity|].
+  destruct (IH (dstep c (DT FNone) s)) as [ls Hls]. exists (DT FNone :: ls). exact Hls.
+Qed.
+
+Lemma dsettle_r_is_run c fuel : forall s, exists ls, dsettle_r c fuel s = drun c ls s.
+Proof.
+  induction fuel as [|f IH]; intros s; cbn [dsettle_r]; [exists []; reflexivity|].
+  destruct (dr_parked s); [exists []; reflexivity|].
+  destruct (IH (dstep c (DRec FNone) s)) as [ls Hls]. exists (DRec FNone :: ls). exact Hls.
+Qed.
+
+Lemma dmacro_is_run c fuel l s : exists ls, dmacro c fuel l s = drun c ls s.
+Proof.
+  destruct l as [i f|f| | |f|]; cbn [dmacro].
+  - destruct (dsettle_w_is_run c fuel i (dstep c (DW i f) s)) as [ls H]. exists (DW i f :: ls). exact H.
+  - destruct (dsettle_t_is_run c fuel (dstep c (DT f) s)) as [ls H]. exists (DT f :: ls). exact H.
+  - destruct (dsettle_t_is_run c fuel (dstep c DTick s)) as [ls H]. exists (DTick :: ls). exact H.
+  - destruct (dsettle_t_is_run c fuel (dstep c DShut s)) as [ls H]. exists (DShut :: ls). exact H.
+  - destruct (dsettle_r_is_run c fuel (dstep c (DRec f) s)) as [ls H]. exists (DRec f :: ls). exact H.
+  - exists [DCrash]. reflexivity.
+Qed.
+
+Theorem dmacro_run_is_run : forall c fuel ms s,
+  exists ls, fold_left (fun s l => dmacro c fuel l s) ms s = drun c ls s.
+Proof.
+  intros c fuel ms. induction ms as [|m t IH]; intros s; [exists []; reflexivity|].
+  cbn [fold_left]. destruct (dmacro_is_run c fuel m s) as [l1 H1]. destruct (IH (dmacro c fuel m s)) as [l2 H2].
+  exists (l1 ++ l2). rewrite drun_app, <- H1. exact H2.
 Qed.
